@@ -69,7 +69,9 @@ NS_OPTIONS = {
                             ("inversion", {"x0": "inversion"}), ("inversion-duplicate", {"x0": "inversion-duplicate"}),
                             ("logit", {"x0": "logit"}), ("null", {"null": {"parameters": ["x0", "x1"]}}),
                             ("rescale", {"x0": {"reparameterisation": "rescale", "scale": 2.0}}),
-                            ("offset", {"x0": "offset"}), ("log-rescale", {"x0": "log-rescale"})],
+                            ("offset", {"x0": "offset"}), ("log-rescale", {"x0": "log-rescale"}),
+                            ("prime-prior", {"rescaletobounds": {"parameters": ["x0", "x1"], "update_bounds": True,
+                                                                 "prior": "uniform"}})],
     "fallback_reparameterisation": ["rescaletobounds", None],
     "reverse_reparameterisations": [True],
     "reset_weights": [True, 2],
